@@ -20,12 +20,14 @@ FMOD = 'hszinc.grid_filter'
 V, K = smt.VAL, smt.KEY
 TRUSTED_BASE = ['A-py-exec (exec of `def NAME(params=defaults): return EXPR` binds NAME in the given namespace and evaluates only the default-argument '
                 'expressions; calling the function evaluates EXPR in the module globals)', 'A-bi-repr (repr of a str over [a-zA-Z0-9_] is that text between quotes)',
-                'A-pp (a token sequence that is not a filter fails parseAll: decided by the bounded run)', 'E2 automata']
+                'A-pp (pyparsing element semantics as stated in hv/peg/sem.py, hv/peg/ctx.py; tokens reach a parse action in order, a non-list action result replaces the tokens)', 'E2/E3 automata', 'A-exc/A-lib (the library functions the value constructors call - float, strptime, iso8601.parse_date, b64decode, fromhex, pytz lookups - are pure; listed in props/C09.action_world)']
 ASSUMPTIONS = ['names the generated source refers to (_compare, _get_path, NOT_FOUND, id, _consts, _grid, _entity) are the fixed set written in the generator']
 EXPLANATION = ('Every piece of source text the generator can emit is proved (per node kind, recursive calls by contract) to lie in a closed token language in '
                'which text taken from the filter appears only as tag names inside quoted strings of the path list; literals of every kind are proved to be '
                'appended to the constants list and referenced as _consts[i], never spliced (no repr/str of a literal reaches the source); the exec wrapper is '
-               'proved to define exactly one module global and its finaliser to delete only that name.')
+               'proved to define exactly one module global and its finaliser to delete only that name. Grammar side (live pyparsing objects): every token handed to FilterPath is a match of '
+               'the tag-name pattern, the operator token is one of six literals, everything accepted as a literal lies inside a specification-derived upper bound (no stray token is a '
+               'value), and the value constructors the actions call are executed symbolically in a world without import/open/exec.')
 
 OPS = ('==', '!=', '<', '<=', '>', '>=')
 ID_RX = r'[a-z][a-zA-Z0-9_]*'
@@ -35,13 +37,15 @@ SAFE_PIECES = [r'\(', r'\)', r' and ', r' or ', r'\(id\(', r'\) !=  id\(NOT_FOUN
 
 
 def task_names(tier):
-    return ['pieces', 'grammar_facts', 'wrapper']
+    return ['pieces', 'grammar_facts', 'grammar_tokens', 'grammar_values', 'literals', 'wrapper']
 
 
 def run_task(name, tier):
     T = Task(name)
     globals()['t_' + name](T, tier)
-    return T.result()
+    r = T.result()
+    r['units'] = r['units'] + getattr(T, 'extra_units', [])
+    return r
 
 
 def safe_language():
@@ -166,6 +170,238 @@ def t_grammar_facts(T, tier):
     w = World()
     w.note_unit(fm, '_generate_filter_in_python', fm.functions['_generate_filter_in_python'])
     T.world = w
+
+
+# ------------------------------------------------------------------ where the tokens handed to the node constructors come from (live object graph)
+def token_sources(g, _seen=None):
+    """the tokens element g can deliver to an enclosing parse action, as an over-approximating list of descriptors:
+    ('lang', nfa) a piece of the filter text from that language; ('node', qual) the single result of a parse action (A-pp: a
+    non-list result replaces the tokens); ('text', None) a Combine of arbitrary matched text; ('list', None) a Group.
+    Returns (descriptors, exactly_one) - exactly_one: every successful match delivers exactly one token."""
+    _seen = set() if _seen is None else _seen
+    if g.actions:
+        return [('node', g.actions[-1].qual)], True
+    if g.uid in _seen:
+        return [], False
+    _seen = _seen | {g.uid}
+    k = g.kind
+    if k == 'regex':
+        return [('lang', S.body(g.pattern))], True
+    if k in ('lit', 'keyword'):
+        return [('lang', A.lit(g.text))], True
+    if k == 'caseless':
+        return [('lang', A.lit(g.ret))], True
+    if k == 'word1':
+        from hv.lang.charset import CS
+        return [('lang', A.cset(CS.of(*g.chars)))], True
+    if k in ('empty', 'end', 'suppress'):
+        return [], False
+    if k == 'combine':
+        return [('text', None)], True
+    if k == 'group':
+        return [('list', None)], True
+    if k in ('forward', 'pass'):
+        return token_sources(g.children[0], _seen)
+    if k in ('or', 'first'):
+        out, one = [], True
+        for c in g.children:
+            d, o = token_sources(c, _seen)
+            out += d
+            one = one and o
+        return out, one
+    if k in ('opt', 'star', 'plus'):
+        d, o = token_sources(g.children[0], _seen)
+        return d, False
+    if k == 'and':
+        out, n = [], 0
+        for c in g.children:
+            d, o = token_sources(c, _seen)
+            out += d
+            n += 1 if (d and o) else (2 if d else 0)
+        return out, n == 1
+    raise OutOfSubset('element kind %s' % k)
+
+
+def t_grammar_tokens(T, tier):
+    """every token that reaches FilterPath(...) is a match of a tag-name pattern inside the identifier language; toks[1] of the comparison
+    action is one of the fixed operator literals; read off the pyparsing objects of the running module (not the source text)"""
+    from hv.peg import grammar as G
+    try:
+        ex = G.Extractor(FMOD)
+        root = ex.node(ex.mod.hs_filter)
+    except G.OutOfGrammarSubset as e:
+        T._add(Obligation('grammar-in-subset', 'unknown', 'relang-peg', 0.0, 'oos', reason='outside the E3 grammar subset: %s' % e, kind='subset'))
+        return
+    idl = S.body(ID_RX)
+    n_path, n_cmp = 0, 0
+    for g in G.walk(root):
+        for a in g.actions:
+            src = ast.unparse(a.node)
+            if 'FilterPath(' in src:
+                n_path += 1
+                body = ast.unparse(a.node.body) if isinstance(a.node, ast.Lambda) else src
+                shape_ok = body.replace('"', "'") in ('FilterPath([t for t in toks])', "FilterUnary('has', FilterPath([t for t in toks]))")
+                T._add(Obligation('grammar_tokens/%s/action_passes_its_tokens_to_FilterPath_unchanged' % a.qual, 'proved' if shape_ok else 'unknown', 'ast', 0.0,
+                                  'ast:' + a.qual, reason='' if shape_ok else 'action body %r' % body, kind='structure'))
+                bare = _without_actions(g)
+                ds, _ = token_sources(bare)
+                bad = None
+                for kind, x in ds:
+                    if kind != 'lang':
+                        bad = 'a %s token (%s)' % (kind, x)
+                        break
+                    inc, wit = A.included(x, idl)
+                    if not inc:
+                        bad = 'path segment %r' % wit
+                        break
+                T._add(Obligation('grammar_tokens/%s/every_path_segment_token_is_a_plain_identifier' % a.qual, 'refuted' if bad else ('proved' if ds else 'unknown'), 'relang', 0.0,
+                                  'e2:' + a.qual, reason=bad or '', kind='lang', ))
+            if 'FilterBinary(toks[1]' in src:
+                n_cmp += 1
+                bare = _without_actions(g)
+                ok, why = False, 'not a sequence'
+                if bare.kind == 'and':
+                    def flat(x):
+                        for c in x.children:
+                            if c.kind == 'and' and not c.actions:
+                                for y in flat(c):
+                                    yield y
+                            else:
+                                yield c
+                    seq = [(c,) + token_sources(c) for c in flat(bare)]
+                    seq = [(c, d, o) for c, d, o in seq if d]
+                    ok = len(seq) >= 2 and seq[0][2] and seq[1][2] and all(k == 'lang' for k, _ in seq[1][1])
+                    why = 'first element does not deliver exactly one token, or the second is not a set of literals'
+                    if ok:
+                        ops = A.union(*[A.lit(o) for o in OPS])
+                        for k, x in seq[1][1]:
+                            inc, wit = A.included(x, ops)
+                            if not inc:
+                                ok, why = False, 'operator token %r' % wit
+                T._add(Obligation('grammar_tokens/%s/operator_token_is_one_of_the_fixed_literals' % a.qual, 'proved' if ok else 'refuted', 'relang', 0.0, 'e2:' + a.qual,
+                                  reason='' if ok else why, kind='lang'))
+    T._add(Obligation('grammar_tokens/cover.path_and_comparison_actions_found(%d,%d)' % (min(n_path, 3), min(n_cmp, 1)), 'proved' if n_path >= 2 and n_cmp >= 1 else 'refuted', 'ast', 0.0, 'cover',
+                      reason='FilterPath actions %d, comparison actions %d' % (n_path, n_cmp), kind='vacuity'))
+    # every other place a FilterPath / FilterBinary / FilterUnary is built in the module is one of the actions above
+    fm = extract.module(FMOD)
+    calls = [n for n in ast.walk(fm.tree) if isinstance(n, ast.Call) and getattr(n.func, 'id', '') in ('FilterPath', 'FilterBinary', 'FilterUnary')]
+    known = {"FilterPath([t for t in toks])", "FilterBinary(toks[1], toks[0], toks[2])", "FilterUnary('not', toks[0])", "FilterUnary('has', FilterPath([t for t in toks]))",
+             'FilterBinary(op, node, operand)'}
+    extra = [ast.unparse(c) for c in calls if ast.unparse(c).replace('"', "'") not in known]
+    T._add(Obligation('grammar_tokens/no_other_constructor_call_of_filter_nodes_in_the_module', 'proved' if not extra else 'unknown', 'ast', 0.0, 'ast:ctor', reason='; '.join(extra), kind='structure'))
+    fb = [ast.unparse(c) for c in ast.walk(fm.tree) if isinstance(c, ast.Call) and getattr(c.func, 'id', '') == '_fold_binary']
+    okf = fb and all(x.replace('"', "'") in ("_fold_binary('and', toks)", "_fold_binary('or', toks)") for x in fb)
+    T._add(Obligation('grammar_tokens/_fold_binary_is_called_with_a_fixed_operator', 'proved' if okf else 'refuted', 'ast', 0.0, 'ast:fold', reason='; '.join(fb), kind='structure'))
+    T.extra_units = [{'function': '%s.hs_filter (pyparsing object graph)' % FMOD, 'file': 'hszinc/grid_filter.py', 'lines': 'module level', 'ast_sha': G.fingerprint(root)}]
+
+
+def t_grammar_values(T, tier):
+    """'a token that is not a valid filter is rejected': everything the literal grammar hs_val accepts (exact PEG semantics of the extracted
+    pyparsing objects, collections one level deep) lies inside an upper bound written from the specification - the Haystack literal kinds and
+    the documented ZINC extensions, with the tolerated leniencies; the top-level tokens are the fixed set of the filter grammar"""
+    from hv.peg import grammar as G
+    from props import filtergram as FG, zincread as ZR
+    from spec import filter_surface as FS
+    try:
+        ref = A.concat(FS.rx(FS.WS), FS.lenient_value(1), FS.rx(FS.WS))
+        rd = FG.FilterReader(extra_nfas=[ref])
+        comp, alg = rd.comp, rd.alg
+        sem = rd.to_end(comp.compile_depth(rd.val, {0: 0, 1: 1}))
+    except G.OutOfGrammarSubset as e:
+        T._add(Obligation('grammar-in-subset', 'unknown', 'relang-peg', 0.0, 'oos', reason='outside the E3 grammar subset: %s' % e, kind='subset'))
+        return
+    acc = alg.strip(sem.cons)
+    X = comp.lang_ctx(ref)
+    X.delta[X.start][alg.KI] = X.delta[X.start][alg.KN]          # whatever the character before the literal was
+    ZR.oblige_included(T, 'grammar_values/every_text_accepted_as_a_literal_is_a_spelling_of_a_value(upper_bound_from_the_specification,collections_one_level)', FG.rd_adapter(rd), acc, X,
+                       witness_kind='filter_literal')
+    e, w = alg.is_empty(acc)
+    ZR.oblige_fact(T, 'grammar_values/cover.literal_language_nonempty', not e, kind='vacuity')
+    # top level: outside hs_val the grammar consumes only the fixed tokens
+    allowed_lits = {'(', ')', '->'} | set(OPS)
+    allowed_kw = {'not', 'and', 'or'}
+    bad = []
+    vt = comp.target(rd.val).uid
+    seen = set()
+
+    def visit(g):
+        if g.uid in seen or g.uid == vt:
+            return
+        seen.add(g.uid)
+        if g.kind == 'forward' and comp.target(g).uid == vt:
+            return
+        if g.kind == 'lit':
+            if g.text not in allowed_lits:
+                bad.append('literal %r' % g.text)
+        elif g.kind == 'keyword':
+            if g.text not in allowed_kw:
+                bad.append('keyword %r' % g.text)
+        elif g.kind == 'regex':
+            inc, wit = A.included(S.body(g.pattern), S.body(ID_RX))
+            if not inc:
+                bad.append('pattern %r (e.g. %r)' % (g.pattern, wit))
+        elif g.kind in ('caseless', 'word1'):
+            bad.append('%s token' % g.kind)
+        for c in g.children:
+            visit(c)
+    visit(rd.filter)
+    ZR.oblige_fact(T, 'grammar_values/top_level_consumes_only_the_fixed_tokens_and_tag_names', not bad and len(seen) > 10, reason='; '.join(bad[:4]))
+    T.extra_units = rd.units()
+
+
+def t_literals(T, tier):
+    """building a literal value has no effect: the constructors the filter's parse actions call (read off the actions' source) are executed
+    on arbitrary token texts in a world where only named pure library functions exist (float, strptime, parse_date, b64decode, fromhex, the
+    zone table); anything else they might call - a codec or module looked up by name, open, exec - is outside the world and leaves the
+    obligation undischarged; module state written on the way is a frame violation"""
+    from props import C09
+    fm = extract.module(FMOD)
+    dt = extract.module('hszinc.datatypes')
+    called = set()
+    for n in ast.walk(fm.tree):
+        if isinstance(n, ast.Lambda) or (isinstance(n, ast.FunctionDef) and n.name in ('_parse_time', '_parse_datetime')):
+            for c in ast.walk(n):
+                if isinstance(c, ast.Call) and isinstance(c.func, ast.Name) and c.func.id in dt.classes:
+                    called.add(c.func.id)
+    T._add(Obligation('literals/cover.value_constructors_found_in_the_parse_actions(%s)' % ','.join(sorted(called)), 'proved' if {'XStr', 'Bin', 'Uri', 'Ref', 'Quantity', 'Coordinate'} <= called else 'refuted',
+                      'ast', 0.0, 'cover', kind='vacuity'))
+    tok = lambda name, rx=None: Shape([Field(name, S.body(rx) if rx else A.sigma_star(), 'token', name)])
+    ARGS = {'XStr': lambda it: [tok('enc', r'[a-zA-Z0-9_]+'), tok('data')], 'Bin': lambda it: [tok('mime')], 'Uri': lambda it: [tok('uri')],
+            'Ref': lambda it: [tok('name'), tok('dis') if it.ctx.branch(it.ctx.fresh('has_dis', z3.BoolSort())) else None],
+            'Quantity': lambda it: [SVal(it.ctx.fresh('number', V)), tok('unit')], 'Coordinate': lambda it: [SVal(it.ctx.fresh('lat', V)), SVal(it.ctx.fresh('lng', V))]}
+    for cname in sorted(called):
+        w, plug = C09.action_world()
+        mk = ARGS.get(cname)
+        if mk is None:
+            T._add(Obligation('literals/%s/in-subset' % cname, 'unknown', 'hv', 0.0, 'oos', reason='no argument model for constructor %s' % cname, kind='subset'))
+            continue
+
+        def run(it, cname=cname, mk=mk):
+            for ax in KD.axioms():
+                it.ctx.assume(ax)
+            args = mk(it)
+            w.globals_written.clear()
+            cls = w.class_ref(dt, cname)
+            it.call(cls, args, {})
+            wr = sorted('%s.%s' % k for k in w.globals_written)
+            it.ctx.oblige('literals/%s/frame.constructing_the_value_writes_no_module_state%s' % (cname, '(%s)' % ','.join(wr) if wr else ''), z3.BoolVal(not wr))
+
+        def on_raise(it, e, cname=cname):
+            wr = sorted('%s.%s' % k for k in w.globals_written)
+            it.ctx.oblige('literals/%s/raises.rejecting_the_text_writes_no_module_state(%s)' % (cname, e.cls), z3.BoolVal(not wr), kind='raises')
+        T.explore(w, run, 'literals/' + cname, allow_raise=on_raise)
+
+
+class _Bare(object):
+    """view of a grammar node without its own parse actions (what the action receives)"""
+
+    def __init__(self, g):
+        self.__dict__.update(g.__dict__)
+        self.actions = []
+
+
+def _without_actions(g):
+    return _Bare(g)
 
 
 def t_wrapper(T, tier):
